@@ -52,6 +52,8 @@ type LoopContract struct {
 
 type FuncContract struct {
 	deadCount int
+	asserts   map[ast.Stmt][]*Clause // at "<stmt>" assert P
+	expand    []string // callees expanded from source in this body
 	key      string
 	props    []string
 	requires []*Clause
@@ -285,6 +287,15 @@ func installUniverse() {
 			types.NewTuple(types.NewVar(token.NoPos, nil, "", tp)), true)
 		types.Universe.Insert(types.NewFunc(token.NoPos, nil, "ghostOf", sig))
 	}
+	// valAt[T any](m any, k any) T : the value stored in map m under key k (k may be the string form of a byte-array key)
+	{
+		tn := types.NewTypeName(token.NoPos, nil, "T", nil)
+		tp := types.NewTypeParam(tn, anyT)
+		sig := types.NewSignatureType(nil, nil, []*types.TypeParam{tp},
+			types.NewTuple(types.NewVar(token.NoPos, nil, "m", anyT), types.NewVar(token.NoPos, nil, "k", anyT)),
+			types.NewTuple(types.NewVar(token.NoPos, nil, "", tp)), false)
+		types.Universe.Insert(types.NewFunc(token.NoPos, nil, "valAt", sig))
+	}
 	// isType[T any](x any) bool : the dynamic type of interface value x is exactly T
 	{
 		tn := types.NewTypeName(token.NoPos, nil, "T", nil)
@@ -349,13 +360,14 @@ func installUniverse() {
 
 var clauseKinds = map[string]bool{"guard": true, "callback": true, "step": true, "requires": true, "ensures": true, "invariant": true, "decreases": true,
 	"modifies": true, "props": true, "trusted": true, "pure": true, "inline": true, "unroll": true, "lemma": true,
-	"assume": true, "nopanic": true, "dead": true, "heapframe": true}
+	"assume": true, "nopanic": true, "dead": true, "expand": true, "assert": true, "heapframe": true}
 
 var headRe = regexp.MustCompile(`^func\s+(.+)$`)
 var clauseRe = regexp.MustCompile(`^(?:(loop|closure|if)#(\d+)\s+)?([a-z]+)(?:\[([A-Za-z0-9, ]+)\])?(?:\s+(.*))?$`)
 
 type rawClause struct {
-	scope   string // "", "loop", "closure"
+	scope   string // "", "loop", "closure", "if", "at"
+	atText  string // at "<statement source>": the statement the assert is placed before
 	ord     int
 	sub     *rawClause // for closure#n loop#m ...
 	kind    string
@@ -525,7 +537,20 @@ func parseContractLines(lines []string, wheres []string) ([]*rawBlock, error) {
 	return blocks, nil
 }
 
+var atRe = regexp.MustCompile(`^at\s+"((?:[^"\\]|\\.)*)"(?:#(\d+))?\s+(.*)$`)
+
 func parseClauseLine(t string) (*rawClause, bool) {
+	if m := atRe.FindStringSubmatch(t); m != nil {
+		sub, ok := parseClauseLine(strings.TrimSpace(m[3]))
+		if !ok || sub.kind != "assert" {
+			return nil, false
+		}
+		n := 1
+		if m[2] != "" {
+			n, _ = strconv.Atoi(m[2])
+		}
+		return &rawClause{scope: "at", ord: n, atText: strings.ReplaceAll(m[1], `\"`, `"`), sub: sub}, true
+	}
 	m := clauseRe.FindStringSubmatch(t)
 	if m == nil {
 		return nil, false
@@ -1151,6 +1176,39 @@ func (p *Program) fillContract(fc *FuncContract, clauses []*rawClause, body *ast
 			rc.sub.where = rc.where
 			closureClauses[rc.ord] = append(closureClauses[rc.ord], rc.sub)
 			continue
+		case "at":
+			// at "<statement>"[#k] assert P: proved, then assumed, immediately before the k-th statement of the
+			// body whose source text is <statement> (whitespace-insensitive)
+			var hits []ast.Stmt
+			want := strings.Join(strings.Fields(rc.atText), " ")
+			ast.Inspect(body, func(n ast.Node) bool {
+				if st, ok := n.(ast.Stmt); ok {
+					switch st.(type) {
+					case *ast.BlockStmt:
+					default:
+						var sb strings.Builder
+						printNode(&sb, p.fset, st)
+						if strings.Join(strings.Fields(sb.String()), " ") == want {
+							hits = append(hits, st)
+						}
+					}
+				}
+				return true
+			})
+			if rc.ord < 1 || rc.ord > len(hits) {
+				p.bindIssues = append(p.bindIssues, bindIssue{fc.key, fmt.Sprintf("%s: %s has no statement #%d `%s`", rc.where, fc.key, rc.ord, rc.atText)})
+				continue
+			}
+			cl, err := p.checkClause(fc, rc.sub, rc.where, hits[rc.ord-1].Pos())
+			if err != nil {
+				p.bindIssues = append(p.bindIssues, bindIssue{fc.key, err.Error()})
+				continue
+			}
+			if fc.asserts == nil {
+				fc.asserts = map[ast.Stmt][]*Clause{}
+			}
+			fc.asserts[hits[rc.ord-1]] = append(fc.asserts[hits[rc.ord-1]], cl)
+			continue
 		case "if":
 			ifs := ifsOf(body)
 			if rc.ord < 1 || rc.ord > len(ifs) {
@@ -1263,6 +1321,10 @@ func (p *Program) fillContract(fc *FuncContract, clauses []*rawClause, body *ast
 			fc.lemma = true
 		case "nopanic":
 			fc.nopanic = rc.text != "off"
+		case "expand":
+			// expand <func>: calls of that function in this body are expanded from its source instead of being
+			// replaced by its contract (used for db.View / db.Update with a function-literal argument)
+			fc.expand = append(fc.expand, strings.Fields(rc.text)...)
 		case "dead":
 			// dead returns n: exactly n return statements are unreachable under the callee contracts (defensive
 			// error checks after calls that cannot fail there); the count is checked, not ordinals, so that adding
